@@ -396,6 +396,9 @@ func HarnessC20Shell() {
 	}
 	if js != "" {
 		src += "    defaults:\n      run:\n        shell: " + js + "\n"
+	} else if verifChoose("jobdefaults", 2) == 1 {
+		// a job-level defaults.run that says nothing about the shell: the workflow default still applies
+		src += "    defaults:\n      run:\n        working-directory: src\n"
 	}
 	src += "    steps:\n      - run: echo ${{ github.sha }}\n"
 	if ss != "" {
